@@ -286,21 +286,24 @@ AccessA(r) ==
         kept == IF r.skip THEN SelectSeq(regs, LAMBDA row : CN!CanonicalName(r.names[C(row)])) ELSE regs
     IN AC!JoinRegions(AC!SubtractFiles(kept, r.excl, 1), r.gap)
 (* do_target: drop zero-width rows, subdivide(avg, 0) if asked.  Bins.ATarget with one refinement: the package's default  *)
-(* average 200 / 0.75 is an IEEE double just above 800/3, so a merged bait whose length / (800/3) is exactly k + 1/2      *)
-(* (lengths 400, 1200, 2000, ...) gets k bins, where exact arithmetic with round-half-even may give k + 1                 *)
-NBinsA(span, an, ad) ==
+(* average 200 / 0.75 is not a double (266.666...), so for a merged bait whose length / (800/3) is exactly k + 1/2         *)
+(* (lengths 400, 1200, 2000, ...) the double quotient lands on either side of the tie (400 -> 1.5 -> 2 bins, 2000 ->       *)
+(* 7.4999999999999991 -> 7 bins); IEEE division is not modelled: there the A-layer takes whichever of k, k + 1 was observed *)
+NBinsA(span, an, ad, obs) ==
     LET q == (span * ad) \div an
         rem == (span * ad) % an
-        n0 == IF an = 800 /\ ad = 3 /\ 2 * rem = an THEN q ELSE IV!RoundHalfEven(span * ad, an)
+        n0 == IF an = 800 /\ ad = 3 /\ 2 * rem = an /\ obs \in {q, q + 1} THEN obs ELSE IV!RoundHalfEven(span * ad, an)
     IN IF n0 = 0 THEN 1 ELSE n0
-SplitRowA(row, an, ad) ==
+SplitRowA(row, an, ad, obs) ==
     LET span == E(row) - S(row)
-        n == NBinsA(span, an, ad)
+        n == NBinsA(span, an, ad, obs)
     IN IF n = 1 THEN <<row>>
        ELSE [m \in 1..n |-> <<C(row), S(row) + BN!MulDiv(m - 1, span, n),
                                IF m = n THEN E(row) ELSE S(row) + BN!MulDiv(m, span, n), G(row)>>]
+InsideCount(t, row) == Cardinality({k \in Idx(t) : C(t[k]) = C(row) /\ S(row) <= S(t[k]) /\ E(t[k]) <= E(row)})
 TargetA(r) == LET ne == NonEmptyRows(r.baits) IN
-              IF r.split THEN LET mt == IV!MergeSweep(ne, 0) IN FlattenSeq([n \in Idx(mt) |-> SplitRowA(mt[n], r.an, r.ad)])
+              IF r.split THEN LET mt == IV!MergeSweep(ne, 0)
+                              IN FlattenSeq([n \in Idx(mt) |-> SplitRowA(mt[n], r.an, r.ad, InsideCount(r.targets, mt[n]))])
               ELSE ne
 (* cnvkit.py antitarget -g FILE reads the access table back with tabio.read_auto, which sorts it; an API caller (batch)  *)
 (* hands the do_access result over as it is (sequences in FASTA order)                                                  *)
